@@ -522,7 +522,10 @@ def check_read_int(run, rule):
     tab = {}
     try:
         for ai, want in ((24, 1), (25, 2), (26, 4), (27, 8)):
-            tab[ai] = assembly.explore(f, pname, ai, want, enums)
+            try:
+                tab[ai] = assembly.explore(f, pname, ai, want, enums)
+            except assembly.OutOfWindow as ow:
+                tab[ai] = [("outside", str(ow), 0, ow.choices)]
     except minieval.Unknown as ex:
         tab = None
     if tab is not None:
@@ -535,6 +538,9 @@ def check_read_int(run, rule):
                 txt = "consumes %d byte(s), most significant first, on each of the %d path(s) over the ways the argument can be split across refills" % (want, len(paths))
             elif not paths:
                 txt = "no path returns for additional information %d" % ai
+            elif bad and bad[0][0] == "outside":
+                txt = "for additional information %d, on the path with window sizes %s (bytes buffered on entry, then what each refill delivers) read_int %s: " \
+                      "it takes bytes that were never read from the input" % (ai, list(bad[0][3]), bad[0][1])
             else:
                 b_ = bad[0]
                 shifts = [b_[1].get(k_) for k_ in sorted(b_[1])] if b_[0] == "bytes" else b_[1]
